@@ -311,6 +311,19 @@ def _open_call_token(
 ) -> tuple[bytes, str, bytes, bytes, bytes, str]:
     """Open and verify a call token.
 
+    Same as :func:`_open_call_token_dated` without the creation timestamp.
+    """
+    return _open_call_token_dated(token, token_key, aad, token_ttl)[:6]
+
+
+def _open_call_token_dated(
+    token: bytes,
+    token_key: bytes,
+    aad: bytes,
+    token_ttl: int = 0,
+) -> tuple[bytes, str, bytes, bytes, bytes, str, int]:
+    """Open and verify a call token, also returning when it was minted.
+
     Args:
         token: The opaque token produced by :func:`_seal_call_token`.
         token_key: 32-byte master AEAD key.
@@ -319,7 +332,9 @@ def _open_call_token(
 
     Returns:
         ``(call_state_bytes, call_state_type, schema_bytes, input_schema_bytes,
-        call_id, stream_id)``
+        call_id, stream_id, created_at)``.  ``created_at`` is the timestamp
+        the expiry check below is made against; the call-state cache ages
+        its entry from it so a cached call expires when its token does.
 
     Raises:
         _RpcHttpError: On malformed, tampered, expired, or cross-principal
@@ -358,10 +373,9 @@ def _open_call_token(
     if payload_end != len(plaintext):
         raise _RpcHttpError(RuntimeError("Malformed call token"), status_code=HTTPStatus.BAD_REQUEST)
 
-    if token_ttl > 0:
-        created_at = struct.unpack_from("<Q", plaintext, 0)[0]
-        if int(time.time()) - created_at > token_ttl:
-            raise _RpcHttpError(RuntimeError("Call token expired"), status_code=HTTPStatus.BAD_REQUEST)
+    created_at: int = struct.unpack_from("<Q", plaintext, 0)[0]
+    if token_ttl > 0 and int(time.time()) - created_at > token_ttl:
+        raise _RpcHttpError(RuntimeError("Call token expired"), status_code=HTTPStatus.BAD_REQUEST)
 
     return (
         call_state_bytes,
@@ -370,6 +384,7 @@ def _open_call_token(
         input_schema_bytes,
         call_id,
         stream_id_bytes.decode(),
+        created_at,
     )
 
 
